@@ -347,14 +347,22 @@ func firstDiff(a, b []byte) int {
 // ---------------------------------------------------------------------------------------------
 // fault-injecting reader / writer / closer
 
-type c18InjectedErr struct{ what string }
+type c18InjectedErr struct {
+	what  string
+	wraps error
+}
 
 func (e *c18InjectedErr) Error() string { return "injected " + e.what + " error" }
+func (e *c18InjectedErr) Unwrap() error { return e.wraps }
+
+// errC18ReadEOF is a read failure that wraps io.EOF (a transport's "connection closed by peer: EOF"): it
+// is an error for io.ReadAll and bufio, only the bare io.EOF value means end of data.
+var errC18ReadEOF error = &c18InjectedErr{what: "read (peer closed the connection: EOF)", wraps: io.EOF}
 
 var (
-	errC18Read  error = &c18InjectedErr{"read"}
-	errC18Write error = &c18InjectedErr{"write"}
-	errC18Close error = &c18InjectedErr{"close"}
+	errC18Read  error = &c18InjectedErr{what: "read"}
+	errC18Write error = &c18InjectedErr{what: "write"}
+	errC18Close error = &c18InjectedErr{what: "close"}
 )
 
 // fReader is an io.Reader over fixed data whose per-call behaviour follows a plan:
@@ -375,6 +383,7 @@ type fReader struct {
 	dflt        int
 	eofWithData bool
 	errAt       int
+	errVal      error // the error returned at errAt (errC18Read unless set)
 
 	handed   []byte // everything handed out, in order
 	withEOF  int    // number of bytes handed out in the same call as io.EOF
@@ -408,6 +417,9 @@ func (f *fReader) Read(p []byte) (int, error) {
 	if f.off >= limit {
 		if f.errAt >= 0 && f.errAt <= len(f.data) && f.off >= f.errAt {
 			f.ended = errC18Read
+			if f.errVal != nil {
+				f.ended = f.errVal
+			}
 		} else {
 			f.ended = io.EOF
 		}
@@ -472,7 +484,11 @@ func newFReader(run *c18Run, sc *Scn, data []byte) *fReader {
 	if dflt < 1 {
 		dflt = 1
 	}
-	return &fReader{run: run, data: data, plan: plan, dflt: dflt, eofWithData: sc.Int("eofwd", 0) == 1, errAt: sc.Int("errat", 0) - 1}
+	fr := &fReader{run: run, data: data, plan: plan, dflt: dflt, eofWithData: sc.Int("eofwd", 0) == 1, errAt: sc.Int("errat", 0) - 1}
+	if sc.Int("erreof", 0) == 1 {
+		fr.errVal = errC18ReadEOF
+	}
+	return fr
 }
 
 // fWriter is an io.Writer that accepts everything until call number failAt (0-based; <0 never), where
@@ -750,6 +766,7 @@ func init() {
 				sc.SetInt("eofwd", g.Intn(2))
 				if g.Bool(0.35) {
 					sc.SetInt("errat", 1+g.Range(0, clen))
+					sc.SetInt("erreof", g.PickInt(0, 0, 1))
 				}
 				sc.SetInt("closer", g.Intn(3))
 				for i, n := 0, g.Range(0, 10); i < n; i++ {
@@ -896,8 +913,8 @@ func c18RunReader(run *c18Run) {
 		}
 	} else {
 		e.Probe("c18-read-error")
-		if term == nil || term.K != 'E' || !errors.Is(term.Err, errC18Read) {
-			e.Violate("C18", "terminal-mismatch", fmt.Sprintf("%s: the reader returned %q at offset %d; want an Error notification matching it, got trace %s", what, errC18Read, fr.off, rec.trace()))
+		if term == nil || term.K != 'E' || !errors.Is(term.Err, fr.ended) {
+			e.Violate("C18", "terminal-mismatch", fmt.Sprintf("%s: the reader returned %q at offset %d; want an Error notification matching it, got trace %s", what, fr.ended, fr.off, rec.trace()))
 		}
 	}
 	// content
